@@ -140,4 +140,5 @@ class C10(Check):
 
 
 def main(tier, seed, replay=None):
-    return C10().main(tier, seed, replay)
+    from harness import densex
+    return densex.extend(C10, densex.D10())().main(tier, seed, replay)
